@@ -51,11 +51,11 @@ def run(ck, prog, ctx):
             # the accessor only hands closures (the two lookups, the delta constructor) to ONE crate-private generic helper that does the walking:
             # which side is iterated and which probed is decided inside that helper, over closure parameters - not read by the rules of this section
             deleg_h = [(bi, t) for bi, t in b.calls() if t.callee.res in prog.bodies and prog.bodies[t.callee.res].kind in ("Fn", "AssocFn") and not prog.bodies[t.callee.res].exported and not prog.bodies[t.callee.res].reachable
-                       and len([a for a in t.args if pv.closure_of_operand(b, a)]) >= 2]
+                       and len([a for a in t.args if pv.closure_of_operand(b, a)]) >= 1]
             if not recvs and len(deleg_h) == 1:
                 hb_ = prog.bodies[deleg_h[0][1].callee.res]
                 for part in ("iterates", "looks-up", "delta"):
-                    ck.undecided("ROLE", name + "/" + part, "%s hands its lookups and its delta constructor as closures to the private helper %s: the pairing of old and new records happens there, over closure parameters" % (name, hb_.short), where=b.where(deleg_h[0][1].line))
+                    ck.undecided("ROLE", name + "/" + part, "%s hands its lookup (and delta constructor) as closures to the private helper %s and walks nothing itself: what is iterated (a cached list of ids?) and how old and new records are paired is decided there" % (name, hb_.short), where=b.where(deleg_h[0][1].line))
                 continue
             if not recvs:
                 ck.undecided("ROLE", name + "/iterates", "iteration not recognised", where=b.where())
@@ -117,6 +117,43 @@ def run(ck, prog, ctx):
                 foreign = [e for e in els if e[0] != KIND[ent]]
                 ck.ob("KIND", "K1/" + name, not foreign, "%s %s" % (name, "uses %s only" % KIND[ent] if not foreign else "uses a %s element: %s" % (foreign[0][0], foreign[0][1])), where=b.where())
     check_complete_iteration(ck, "ROLE", prog, [C + "%s_%s" % (m, e) for m in ("added", "removed", "changed") for e in LOOKUPS] + ["ontology::comparison::AnnotationDelta::delta", "ontology::comparison::HpoTermDelta::new"], "the entities of the iterated ontology")
+    # ---- sibling call sites: a private helper that is called once per annotation kind with (ids of one side, test on the other side, ..) must get
+    # the SAME sides in the same argument positions at every site (`Exclusive::new(lhs ids, |id| rhs.has(id), rhs ids, |id| lhs.has(id))` for genes
+    # and OMIM, but `lhs ids, |id| lhs.has(id), ..` for ORPHA: every id is known to its own ontology, nothing is ever reported)
+    for hb in sorted(prog.production(), key=lambda x: x.id):
+        if (hb.file or "") != "src/ontology/comparison.rs" or hb.kind not in ("Fn", "AssocFn"):
+            continue
+        by_callee = {}
+        for bi, t in hb.calls():
+            tg = prog.bodies.get(t.callee.res or "")
+            if tg is not None and tg.kind in ("Fn", "AssocFn") and not tg.exported and not tg.reachable and (tg.file or "") == "src/ontology/comparison.rs" and len(t.args) >= 2:
+                by_callee.setdefault(tg.id, []).append((bi, t))
+        for cid, sites_ in by_callee.items():
+            if len(sites_) < 3:
+                continue
+            def sides2(at_):
+                """old / new side of a value: the Comparison field it is read from, or - in the constructor - the parameter named lhs / rhs"""
+                return sides(at_) | {hb.arg_names.get(p_) for p_ in params_of(at_, hb.id) if hb.arg_names.get(p_) in ("lhs", "rhs")}
+            sigs = []
+            for bi, t in sites_:
+                sig = []
+                for a in t.args:
+                    cb = prog.bodies.get(pv.closure_of_operand(hb, a) or "")
+                    if cb is not None and cb.kind == "Closure":
+                        sd = set()
+                        for fb in prog.family(cb):
+                            for _, ct in fb.calls():
+                                if ct.args:
+                                    sd |= sides2(pv.of_operand(fb, ct.args[0]))
+                        sig.append(tuple(sorted(sd)))
+                    else:
+                        sig.append(tuple(sorted(sides2(pv.of_operand(hb, a)))))
+                sigs.append(tuple(sig))
+            common = max(set(sigs), key=sigs.count)
+            odd = [(sites_[i], sg) for i, sg in enumerate(sigs) if sg != common]
+            if any(any(x for x in sg) for sg in sigs):
+                ck.ob("KIND", "sibling-sites/%s/%s" % (hb.short, prog.bodies[cid].short), not odd, "%s calls %s %d times; the old / new sides of the arguments %s" % (hb.short, prog.bodies[cid].short, len(sites_), "agree at every site: %s" % (list(common),) if not odd else
+                      "DIFFER at line %s: %s where the other sites have %s" % (odd[0][0][1].line, list(odd[0][1]), list(common))), where=hb.where(odd[0][0][1].line if odd else sites_[0][1].line))
     ck.floor("ROLE", "comparison accessors", n_acc, 12)
 
     # ------------------------------------------------------------------ HpoTermDelta::new
